@@ -224,6 +224,9 @@ def replay(history, counter=None):
             mc, mr = used_range(wb, overrides, si)
             if got[0] != 'value':
                 # legitimate when some cell of the sheet raises on evaluation
+                for k in sorted(keys):
+                    if k.startswith(f'{si}:') and k not in table:
+                        check(k, ('timeout',), n, 'get_sheet')     # fills the table entry, judges nothing
                 raising = [k for k in keys if k.startswith(f'{si}:') and table[k][0] != 'value']
                 if not raising and got[0] != 'timeout':
                     fail('get_sheet-evaluates', 'get_sheet:raises:' + got[1], 'a grid', wbk.show_outcome(got), n)
@@ -237,6 +240,43 @@ def replay(history, counter=None):
                 for c in range(mc):
                     if not check(f'{si}:{c + 1}:{r + 1}', ('value', grid[r][c]), n, 'get_sheet'):
                         return fails
+        elif op == 'set':
+            # the overrides are replaced in the middle of the history: what was queried before must not show in what is reported for
+            # the overrides that hold now (the value table is computed anew, by fresh executors that only ever see the final overrides)
+            cells, new = [], []
+            for (k, v, reuse) in st['batch']:
+                cell = None
+                if reuse is not None and reusable:
+                    cand = reusable[reuse % len(reusable)]
+                    if cand.has_handled_identifiers() and isinstance(cand.title, int):
+                        # read - modify - write with the very object a query returned
+                        k = f'{cand.title}:{cand.column + 1}:{cand.row + 1}'
+                        cand.value = wbk.dec(v)
+                        cell = cand
+                if cell is None:
+                    cell = mk(wb, k, 'a1' if len(cells) % 2 else 'num', wbk.dec(v))
+                cells.append(cell)
+                new.append([k, v])
+            o_set = wbk.outcome(lambda: ex.set_cells(cells))
+            if o_set[0] == 'timeout':
+                return fails
+            if o_set[0] != 'value':
+                fail('overrides-are-accepted-under-every-addressing', 'set_cells:raises:' + o_set[1], 'set_cells succeeds', wbk.show_outcome(o_set), n)
+                return fails
+            merged = {k: v for k, v in list(overrides) + new}
+            overrides = [[k, v] for k, v in merged.items()]
+            table.clear()
+            keys |= set(merged)
+            for si in range(len(wb['titles'])):
+                mc, mr = used_range(wb, overrides, si)
+                for c in range(1, mc + 1):
+                    for r in range(1, mr + 1):
+                        keys.add(f'{si}:{c}:{r}')
+            exp_sizes = [{'last_column': used_range(wb, overrides, si)[0], 'last_row': used_range(wb, overrides, si)[1]} for si in range(len(wb['titles']))]
+            sizes_before = copy.deepcopy(ex.get_executed_class().get_sheets_size())
+            if sizes_before != exp_sizes:
+                fail('sizes-are-used-range-extended-by-overrides', 'sizes-after-set', exp_sizes, sizes_before, n)
+                return fails
         elif op == 'second':
             if ex2 is None:
                 ex2 = tr.executor()     # same class object, no overrides
@@ -273,6 +313,8 @@ def features(history):
     f |= {'addr:' + a for a in addrs}
     if history.get('overrides'):
         f.add('with-overrides')
+    if any(s['op'] == 'set' for s in steps):
+        f.add('overrides-replaced-mid-history')
     seen = {}
     for n, s in enumerate(steps):
         ks = [s['k']] if s['op'] in ('get_cell', 'second') and 'k' in s else [k for k, _ in s.get('ks', [])]
@@ -303,7 +345,7 @@ def build_machine(rec):
     from hypothesis import strategies as st
     from hypothesis.stateful import RuleBasedStateMachine, rule, initialize, precondition
     addr = st.sampled_from(['a1', 'num', 'idx-a1', 'title-num', 'mixed'])
-    value = st.one_of(st.integers(-9, 30), st.sampled_from([2.5, 'txt', True]))
+    value = st.one_of(st.integers(-9, 30), st.sampled_from([2.5, 'txt', True, 0, 1, False, 1.0]))
 
     class M(RuleBasedStateMachine):
         def __init__(self):
@@ -382,6 +424,31 @@ def build_machine(rec):
         @rule(data=st.data(), a=addr)
         def second(self, data, a):
             self.h['steps'].append({'op': 'second', 'k': self._key(data), 'addr': a})
+
+        @precondition(lambda self: self.h is not None and self.h['steps'] and sum(1 for s_ in self.h['steps'] if s_['op'] == 'set') < 3)
+        @rule(data=st.data())
+        def set_again(self, data):
+            wb = self.h['wb']
+            now = {k: v for k, v in self.h['overrides']}
+            for s_ in self.h['steps']:
+                if s_['op'] == 'set':
+                    now.update({k: v for k, v, _ in s_['batch']})
+            batch = []
+            for _ in range(data.draw(st.integers(1, 3))):
+                kind = data.draw(st.sampled_from(['again', 'again', 'cell', 'beyond', 'any']))
+                if kind == 'again' and now:
+                    k = data.draw(st.sampled_from(sorted(now)))
+                elif kind == 'beyond':
+                    k = f'{data.draw(st.integers(0, len(wb["titles"]) - 1))}:{data.draw(st.integers(1, 12))}:{data.draw(st.integers(4, 14))}'
+                else:
+                    k = self._key(data)
+                v = data.draw(value)
+                cur = now.get(k, wb['cells'].get(k))
+                if isinstance(cur, (bool, int)) and cur in (0, 1) and data.draw(st.booleans()):
+                    v = int(cur) if isinstance(cur, bool) else bool(cur)     # equal value, other type
+                batch.append([k, v, data.draw(st.one_of(st.none(), st.none(), st.integers(0, 20)))])
+                now[k] = v
+            self.h['steps'].append({'op': 'set', 'batch': batch})
 
         def teardown(self):
             if self.h is None or not self.h['steps'] or rec.out_of_time():
